@@ -20,7 +20,13 @@ fn gen_rules(rng: &mut Rng) -> Vec<RuleSpec> {
     (0..rng.range(0, 4))
         .map(|_| {
             let origins: Vec<String> = (0..rng.below(3)).map(|_| (*rng.pick(&["http://other.test", "https://other.test", "https://other.test:444", "https://third.test", "other.test"])).to_owned()).collect();
-            let methods = if rng.chance(1, 4) { None } else { Some((0..rng.range(1, 3)).map(|_| (*rng.pick(&["GET", "POST", "PUT", "OPTIONS", "HEAD"])).to_owned()).collect()) };
+            // a list in addition to the default GET, HEAD, OPTIONS — or (first element `=`) an exact list, built the only way the
+            // API offers: `allow_all_methods()` empties the list, `add_method` then starts a new one
+            let methods = if rng.chance(1, 4) { None } else {
+                let mut m: Vec<String> = (0..rng.range(1, 3)).map(|_| (*rng.pick(&["GET", "POST", "PUT", "OPTIONS", "HEAD", "DELETE"])).to_owned()).collect();
+                if rng.chance(1, 3) { m.insert(0, "=".to_owned()); }
+                Some(m)
+            };
             let headers = (0..rng.below(3)).map(|i| ["x-a", "content-type", "x-b"][i].to_owned()).collect();
             ((*rng.pick(&pats)).to_owned(), rng.chance(1, 6), origins, methods, headers, *rng.pick(&[60u64, 3600, 1]))
         })
@@ -35,7 +41,11 @@ fn spec_str(r: &RuleSpec) -> String {
             format!("{}~{}~{}", hex(u.scheme_str().unwrap_or("https").as_bytes()), hex(u.host().unwrap().as_bytes()), u.port_u16().map(|p| p.to_string()).unwrap_or("none".into()))
         }).collect::<Vec<_>>().join(";")
     };
-    let methods = match &r.3 { None => "all".into(), Some(m) => m.iter().map(|x| hex(x.as_bytes())).collect::<Vec<_>>().join(";") };
+    let methods = match &r.3 {
+        None => "all".into(),
+        Some(m) if m.first().map(String::as_str) == Some("=") => format!("={}", m[1..].iter().map(|x| hex(x.as_bytes())).collect::<Vec<_>>().join(";")),
+        Some(m) => m.iter().map(|x| hex(x.as_bytes())).collect::<Vec<_>>().join(";"),
+    };
     let headers = if r.4.is_empty() { "-".into() } else { r.4.iter().map(|x| hex(x.as_bytes())).collect::<Vec<_>>().join(";") };
     format!("{}/{origins}/{methods}/{headers}/{}", b01(r.1), r.5)
 }
@@ -50,7 +60,7 @@ impl Group for Decisions {
         "c13.respond"
     }
     fn rule(&self) -> &'static str {
-        "a real loopback server with Extensions::new() + with_cors(rule set): 0-4 rules over exact and wildcard paths sharing prefixes (incl. wildcards one character longer than an exact rule, `/page` + `/page*`, in both insertion orders), origin lists, method lists, allow-all flags, default and permissive status filter; one keep-alive connection carrying 6-12 requests over 5 paths (incl. `/` and /index.html) x methods GET/POST/PUT/OPTIONS(+preflight) x 19 Origin values (same / different scheme, host, port, case, `null`, `localhost`, empty, path suffix, userinfo, non-ASCII, bare authorities of listed origins) interleaved with same-origin requests that warm the cache; per response: status, whether the target handler ran (invocation counter), ACAO, preflight headers — compared with the model given the most specific rule (independent resolver) and the Origin as parsed by the real Uri type; oracle: a reference decision written from the statement; non-trivial = the case has a cross-origin request"
+        "a real loopback server with Extensions::new() + with_cors(rule set): 0-4 rules over exact and wildcard paths sharing prefixes (incl. wildcards one character longer than an exact rule, `/page` + `/page*`, in both insertion orders), origin lists, method lists (in addition to the defaults, or exact: `allow_all_methods()` then `add_method`), allow-all flags, default and permissive status filter; one keep-alive connection carrying 6-12 requests over 5 paths (incl. `/` and /index.html) x methods GET/POST/PUT/OPTIONS(+preflight) x 19 Origin values (same / different scheme, host, port, case, `null`, `localhost`, empty, path suffix, userinfo, non-ASCII, bare authorities of listed origins) interleaved with same-origin requests that warm the cache; per response: status, whether the target handler ran (invocation counter), ACAO, preflight headers — compared with the model given the most specific rule (independent resolver) and the Origin as parsed by the real Uri type; oracle: a reference decision written from the statement; non-trivial = the case has a cross-origin request"
     }
     fn parallel(&self) -> bool {
         false
@@ -107,7 +117,10 @@ impl Group for Decisions {
                     al = al.add_origin(u);
                 }
             }
-            if f[2] == "all" { al = al.allow_all_methods(); } else {
+            if f[2] == "all" { al = al.allow_all_methods(); } else if let Some(exact) = f[2].strip_prefix('=') {
+                al = al.allow_all_methods();
+                for m in exact.split(';') { al = al.add_method(Method::from_bytes(&unhex(m).unwrap()).unwrap()); }
+            } else {
                 // the default list is GET, HEAD, OPTIONS: start from an explicit list by allowing the given ones in addition
                 for m in f[2].split(';') { al = al.add_method(Method::from_bytes(&unhex(m).unwrap()).unwrap()); }
             }
@@ -160,7 +173,11 @@ impl Group for Decisions {
             // the default method list of an AllowList is GET, HEAD, OPTIONS plus what was added
             let rule_s = match best { None => "norule".to_owned(), Some(b) => {
                 let f: Vec<&str> = b.1.split('/').collect();
-                let methods = if f[2] == "all" { "all".to_owned() } else {
+                let methods = if f[2] == "all" { "all".to_owned() } else if let Some(exact) = f[2].strip_prefix('=') {
+                    let mut ms: Vec<String> = Vec::new();
+                    for m in exact.split(';') { if !ms.iter().any(|x| x == m) { ms.push(m.to_owned()); } }
+                    ms.join(";")
+                } else {
                     let mut ms: Vec<String> = vec![hex(b"GET"), hex(b"HEAD"), hex(b"OPTIONS")];
                     for m in f[2].split(';') { if !ms.iter().any(|x| x == m) { ms.push(m.to_owned()); } }
                     ms.join(";")
